@@ -1,7 +1,7 @@
 #!/bin/bash
-# usage: tools/keep_seed.sh <cNN> <n> "<needs>" "<caught by>"  — stores a confirmed seeded change under /verif/seeded/
+# usage: tools/keep_seed.sh <cNN> <n> "<needs>" "<caught by>" [<id number, default n>]  — stores a confirmed seeded change under /verif/seeded/
 c=$1; n=$2; needs=$3; caught=$4; out=/tmp/seed-out-$c
-id=$(echo $c | tr a-z A-Z)-$n
+id=$(echo $c | tr a-z A-Z)-${5:-$n}
 d=/verif/seeded/$id; mkdir -p $d
 cp $out/change$n.diff $d/patch.diff
 cp $out/demo${n}_test.go $d/demo_test.go
